@@ -249,7 +249,7 @@ def run_property(spec, tier, sd, replay, t0):
     # 1. translator
     if spec.needs_extract:
         try:
-            X.main_quiet()
+            X.main_quiet(pid)
         except X.ExtractError as e:
             tie_broken.append(("extract", str(e)))
     # 2. theorems
